@@ -21,8 +21,9 @@ def mat(da):
 # ------------------------------------------------------------------------------------------
 class Recipe:
     def __init__(self, name, gen, call, fixed=(), lazy=True, dask=True, dataset=None, dims_kw=True, fn=None,
-                 specific=(), weights=False, kind="mean", keeps=(), obs_extra=False, fwd_weights=False):
+                 specific=(), weights=False, kind="mean", keeps=(), obs_extra=False, fwd_weights=False, dtypes=True):
         self.name, self.gen, self.call = name, gen, call
+        self.dtypes = dtypes           # integer-valued inputs may be stored as int64 / int32 / float32 (storage-dtype representation)
         self.specific = (set(specific) | set(fixed)) - set(keeps)   # score-specific dims: never survive in the result
         self.nondata = set(specific) | set(fixed)                     # dims that are not "data dimensions" of the request
         self.weights = weights         # accepts weights=
